@@ -36,6 +36,11 @@ ASSUMPTIONS = [
     'periodic array systems are at least 15 A long along m (smaller ones legitimately ask for other dimensions)',
     'periodic-array rows: boundary atoms (within boundarywidth of the free surfaces, +-0.6|b| undecided) carry the uniform field, the others the '
     'elastic solution up to one rigid translation along the plane normal',
+    'configurations whose rotated cell is not the transform-rotated crystal (classes anticyclic / oblique, decided from the inputs and the chosen uvws) are '
+    'reported once under orientation:<class>; in the oblique classes the later clauses are not evaluated (counted as skipped) and refusals are accepted',
+    'a ValueError at construction is accepted as a refusal only for hexagonal lines along c (no elastic solution) and, with non-default axes, for '
+    'mixed lines / {123} / hcp planes where mutually orthogonal lattice vectors need not exist',
+    'displacements between periodic systems (hence the disregistry) are compared modulo the periodic line vector',
     'oracle shares numpy/LAPACK with the code under test',
 ]
 CONFIG = {'quick': dict(timeout=600), 'thorough': dict(timeout=3000)}
